@@ -21,7 +21,7 @@ if [ -d $OUT/$X.demo ]; then
   for d in $dirs; do
     for side in without with; do
       echo "== demo $d ($side the change): go test $FLAGS $d"
-      (cd $W/$side && timeout 600 go test -count=1 $FLAGS $d 2>&1 | grep -E '^(ok|FAIL|--- FAIL|panic|WARNING: DATA RACE)' | sort | uniq -c | head -8)
+      (cd $W/$side && timeout 600 go test -count=1 $FLAGS $d 2>&1 | grep -aE '^(ok|FAIL|--- FAIL|panic|WARNING: DATA RACE)' | sort | uniq -c | head -8)
     done
   done
 fi
